@@ -18,6 +18,9 @@
    * SdresMin is the guard of the SDRES batching loop in ServiceDiscovery.dequeue:
      the code as shipped has `while miu_size > 0` (SdresMin = 1), the repaired code
      `while miu_size >= 4` (SdresMin = 4).  Both are checked; FrameFits decides.
+   * LoopGuard is the guard of collect()'s aggregation loop: the code as shipped has `while True` and tests
+     miu_size only *after* a PDU was appended, so the loop also runs when the budget left after the first PDU
+     is already negative (LoopGuard = FALSE); the repaired code has `while miu_size >= 0` (LoopGuard = TRUE).
    * a service access point without sockets reports mode 0 == RAW_ACCESS_POINT
      (llc.py:61-72), so SAP 0 is iterated with the raw access points in the first loop.
    * the data link connection's sequence state is abstracted to what collect() can see:
